@@ -15,8 +15,20 @@ Two hypotheses go beyond those of the XMI theorem; both are needed (counterexamp
   declared by `uima.tcas.Annotation` exactly for annotations;
 * `hids`: every indexed structure carries an id already in the heap that is handed to the writer (`Cas.add` assigns
   one): the writer lists the members of the views *before* it assigns the missing ids.
+
+Counterexamples without them (evaluated with `#eval`: `saveJson … .none`, then `loadJson … false false`; `demoTS`,
+`casL`, `hp0`, `c0` of `Proofs/RoundTripDemo.lean`, text `a😀b`):
+* without `hids`: `casL` with the heap `hp0` (the indexed `x.Tok` has no id yet): the document's view has
+  `members := []`, the loaded view has no member, the written one has member 3;
+* type `x.T[]` (child of TOP, one Integer feature): `loadJson` fails with `typeError` (the name is read as an array type);
+* a feature `@n : Integer` with value 5: `attributeError`; `#n`: `valueError`; `%n`: loads, but the value is lost (`None`);
+* a type under TOP whose `begin`/`end`/`sofa` features claim the domain `uima.tcas.Annotation`: offsets (2, 3) are
+  written as (3, 4) and read back unconverted; the annotation `x.Tok` with `begin`/`end` re-declared with domain
+  `x.Tok`: offsets are written unconverted and converted by the reader ((2, 3) comes back as (2, 2)).
 -/
 import CassisModel.Proofs.RoundTripJson
+import CassisModel.Proofs.RoundTripJsonFix
+import CassisModel.Proofs.RoundTripJsonDemo
 
 namespace Cassis.Json
 open Cassis.TS Cassis.Traverse Cassis.Xmi
@@ -62,5 +74,48 @@ theorem json_roundtrip_flat_fixpoint (K : Consts) (ts : TypeSystem) (cass : List
     (hload : loadJson K ts tsIdx cass.length false false st.heap doc = .ok ld) :
     ∃ st' : St, saveJson K ts (cass ++ [ld.cas]) cass.length ld.heap .none = .ok (doc, st') :=
   json_roundtrip_flat_fixpoint_aux K ts cass ci c hp tsIdx doc st ld hc hwf hsave hflat hjson hids hdis hmem hmok hload
+
+/-! ### Non-vacuity
+
+The instance of `Proofs/RoundTripDemo.lean` (see `Proofs/RoundTripJsonDemo.lean`): every hypothesis holds, by
+kernel evaluation of sound Boolean checkers. -/
+
+example : ∃ (doc : JDoc) (st : St),
+    saveJson Xmi.Demo.K Xmi.Demo.demoTS [Xmi.Demo.demo.1] 0 Xmi.Demo.demo.2 .none = .ok (doc, st) ∧
+    [Xmi.Demo.demo.1][0]? = some Xmi.Demo.demo.1 ∧ RTWf Xmi.Demo.demo.1 Xmi.Demo.demo.2 ∧
+    (∀ q ∈ st.allFs, FlatFs Xmi.Demo.K Xmi.Demo.demoTS Xmi.Demo.demo.1 0 st.heap q.2) ∧
+    (∀ q ∈ st.allFs, JsonFs Xmi.Demo.demoTS st.heap q.2) ∧
+    (∀ nv ∈ Xmi.Demo.demo.1.views, ∀ e ∈ Index.all nv.2.idx, (xidOf Xmi.Demo.demo.2 e.oid).isSome = true) ∧
+    (∀ q ∈ st.allFs, ∀ nv ∈ Xmi.Demo.demo.1.views, q.1 ≠ nv.2.sofa.xid) ∧
+    (∀ nv ∈ Xmi.Demo.demo.1.views, ∀ e ∈ Index.all nv.2.idx, Xmi.slot st.heap e.oid "sofa" ≠ some .none) ∧
+    MembersOk Xmi.Demo.demo.1 st.heap := Demo.demo_hypsJ
+
+/-- the theorem applied to the instance -/
+example : ∃ (doc : JDoc) (st : St) (ld : Loaded),
+    saveJson Xmi.Demo.K Xmi.Demo.demoTS [Xmi.Demo.demo.1] 0 Xmi.Demo.demo.2 .none = .ok (doc, st) ∧
+    loadJson Xmi.Demo.K Xmi.Demo.demoTS 0 1 false false st.heap doc = .ok ld ∧
+    ld.cas.views.map (viewContent ld.heap) = Xmi.Demo.demo.1.views.map (viewContent st.heap) := by
+  obtain ⟨doc, st, hs, hc, hwf, hf, hj, hi, hd, hm, hmo⟩ := Demo.demo_hypsJ
+  obtain ⟨ld, _, hl, _, _, _, hv, _⟩ :=
+    json_roundtrip_flat Xmi.Demo.K Xmi.Demo.demoTS [Xmi.Demo.demo.1] 0 Xmi.Demo.demo.1 Xmi.Demo.demo.2 0 1 doc st
+      hc hwf hs hf hj hi hd hm hmo
+  exact ⟨doc, st, ld, hs, hl, hv⟩
+
+/-- … and the fixpoint theorem applied to the instance: saving what was loaded gives the same document -/
+example : ∃ (doc : JDoc) (st st' : St) (ld : Loaded),
+    saveJson Xmi.Demo.K Xmi.Demo.demoTS [Xmi.Demo.demo.1] 0 Xmi.Demo.demo.2 .none = .ok (doc, st) ∧
+    loadJson Xmi.Demo.K Xmi.Demo.demoTS 0 1 false false st.heap doc = .ok ld ∧
+    saveJson Xmi.Demo.K Xmi.Demo.demoTS ([Xmi.Demo.demo.1] ++ [ld.cas]) 1 ld.heap .none = .ok (doc, st') := by
+  obtain ⟨doc, st, hs, hc, hwf, hf, hj, hi, hd, hm, hmo⟩ := Demo.demo_hypsJ
+  obtain ⟨ld, _, hl, _⟩ :=
+    json_roundtrip_flat Xmi.Demo.K Xmi.Demo.demoTS [Xmi.Demo.demo.1] 0 Xmi.Demo.demo.1 Xmi.Demo.demo.2 0 1 doc st
+      hc hwf hs hf hj hi hd hm hmo
+  obtain ⟨st', hs'⟩ :=
+    json_roundtrip_flat_fixpoint Xmi.Demo.K Xmi.Demo.demoTS [Xmi.Demo.demo.1] 0 Xmi.Demo.demo.1 Xmi.Demo.demo.2 0 doc st ld
+      hc hwf hs hf hj hi hd hm hmo hl
+  exact ⟨doc, st, st', ld, hs, hl, hs'⟩
+
+#print axioms json_roundtrip_flat
+#print axioms json_roundtrip_flat_fixpoint
 
 end Cassis.Json
